@@ -244,3 +244,135 @@ Proof.
   apply map_ext_in. intros k Hk. apply in_seq in Hk. apply Hv1.
   apply andb_true_iff in Eb. destruct Eb as [Ea Ec]. apply Z.leb_le in Ea, Ec. lia.
 Qed.
+
+
+(** * Writes: the view changes exactly in the written range *)
+Definition pcached (b : fbuf) (q : Z) : Prop := exists pg, znth None (fb_pages b) q = Some pg.
+Definition pc (b : fbuf) : Z := page_count (fb_size b) (fb_psz b).
+
+Lemma cache_page_size b p : fb_size (cache_page b p) = fb_size b.
+Proof. unfold fb_size. rewrite cache_page_disk. reflexivity. Qed.
+Lemma cache_page_pc b p : pc (cache_page b p) = pc b.
+Proof. unfold pc. rewrite cache_page_size, cache_page_psz. reflexivity. Qed.
+
+Lemma cache_page_keeps b p q : fb_inv b -> 0 <= p < pc b -> 0 <= q < pc b -> pcached b q -> pcached (cache_page b p) q.
+Proof.
+  intros (Hp & Hl1 & _) Hpr Hqr [pg Hpg]. unfold pcached, cache_page, pc in *.
+  destruct (znth None (fb_pages b) p) eqn:E; [exists pg; exact Hpg|].
+  cbn [fb_pages]. rewrite znth_zupd by lia. destruct (Z.eqb_spec q p); [eexists; reflexivity|exists pg; exact Hpg].
+Qed.
+Lemma cache_page_caches b p : fb_inv b -> 0 <= p < pc b -> pcached (cache_page b p) p.
+Proof.
+  intros (Hp & Hl1 & _) Hpr. unfold pcached, cache_page, pc in *.
+  destruct (znth None (fb_pages b) p) as [pg|] eqn:E; [exists pg; exact E|].
+  cbn [fb_pages]. rewrite znth_zupd by lia. rewrite Z.eqb_refl. eexists; reflexivity.
+Qed.
+
+Lemma load_pages_cached : forall n b p q, fb_inv b -> 0 <= p -> p + Z.of_nat n <= pc b -> 0 <= q < pc b ->
+  pcached b q \/ p <= q < p + Z.of_nat n -> pcached (load_pages b p n) q.
+Proof.
+  induction n as [|n IH]; intros b p q Hinv Hp0 Hpn Hq Hc; [destruct Hc as [Hc|Hc]; [exact Hc|lia]|].
+  rewrite load_pages_cache.
+  assert (Hr : 0 <= p < pc b) by lia.
+  apply IH; try (rewrite cache_page_pc); try lia; try (apply cache_page_inv; assumption).
+  destruct Hc as [Hc|Hc]; [left; apply cache_page_keeps; assumption|].
+  destruct (Z.eq_dec q p) as [->|Hne]; [left; apply cache_page_caches; assumption|right; lia].
+Qed.
+
+Lemma poke_size b i v : fb_size (poke b i v) = fb_size b.
+Proof. unfold fb_size. rewrite poke_disk. reflexivity. Qed.
+Lemma poke_pc b i v : pc (poke b i v) = pc b.
+Proof. unfold pc. rewrite poke_size, poke_psz. reflexivity. Qed.
+
+Lemma poke_keeps b i v q : fb_inv b -> 0 <= i < fb_size b -> 0 <= q < pc b -> pcached b q -> pcached (poke b i v) q.
+Proof.
+  intros Hinv Hi Hq [pg Hpg]. pose proof Hinv as (Hp & Hl1 & _).
+  destruct (page_of_byte (fb_size b) (fb_psz b) i Hp Hi) as (Hpr & _).
+  unfold pcached, poke, pc in *. destruct (znth None (fb_pages b) (i / fb_psz b)) as [pgi|] eqn:E; [|exists pg; exact Hpg].
+  cbn [fb_pages]. rewrite znth_zupd by lia.
+  destruct (Z.eqb_spec q (i / fb_psz b)); [eexists; reflexivity|exists pg; exact Hpg].
+Qed.
+
+Lemma poke_inv b i v : fb_inv b -> 0 <= i < fb_size b -> pcached b (i / fb_psz b) -> fb_inv (poke b i v).
+Proof.
+  intros Hinv Hi [pgi Hpgi]. pose proof Hinv as (Hp & Hl1 & Hl2 & Hall).
+  destruct (page_of_byte (fb_size b) (fb_psz b) i Hp Hi) as (Hpr & Hrange & _).
+  pose proof (Hall _ Hpr) as Hpi. rewrite Hpgi in Hpi. destruct Hpi as [Hlen _].
+  unfold poke. rewrite Hpgi. unfold fb_inv, fb_size, page_len. cbn [fb_disk fb_psz fb_pages fb_dirty]. fold (fb_size b).
+  split; [exact Hp|]. split; [rewrite zlen_zupd; exact Hl1|]. split; [rewrite zlen_zupd; exact Hl2|].
+  intros q Hq. rewrite !znth_zupd by lia.
+  destruct (Z.eqb_spec q (i / fb_psz b)) as [->|Hne].
+  - split; [rewrite zlen_zupd; exact Hlen|]. intros Hd. discriminate.
+  - specialize (Hall q Hq). exact Hall.
+Qed.
+
+(** writing the bytes [data] at [i]: afterwards the buffer shows [data] there and what it showed
+    before everywhere else *)
+Lemma fold_poke_spec : forall data b i, fb_inv b -> 0 <= i -> i + zlen data <= fb_size b ->
+  (forall j, i <= j < i + zlen data -> pcached b (j / fb_psz b)) ->
+  let b' := fst (fold_left (fun '(bb, k) v => (poke bb k v, k + 1)) data (b, i)) in
+  fb_inv b' /\ fb_size b' = fb_size b /\
+  forall j, 0 <= j < fb_size b -> view b' j = if (i <=? j) && (j <? i + zlen data) then znth 0 data (j - i) else view b j.
+Proof.
+  induction data as [|v r IH]; intros b i Hinv Hi Hb Hc; cbn zeta.
+  - cbn [fold_left fst]. split; [exact Hinv|]. split; [reflexivity|]. intros j Hj. rewrite zlen_nil.
+    destruct (Z.leb_spec i j), (Z.ltb_spec j (i + 0)); cbn; try reflexivity; lia.
+  - rewrite zlen_cons in *. pose proof (zlen_nonneg r) as Hr0. cbn [fold_left].
+    assert (Hir : 0 <= i < fb_size b) by lia.
+    pose proof Hinv as (Hp & _).
+    assert (Hci : pcached b (i / fb_psz b)) by (apply Hc; lia).
+    pose proof (poke_inv b i v Hinv Hir Hci) as Hinv1.
+    destruct (IH (poke b i v) (i + 1) Hinv1 ltac:(lia)) as (H1 & H2 & H3).
+    { rewrite poke_size. lia. }
+    { intros j Hj. rewrite poke_psz.
+      destruct (page_of_byte (fb_size b) (fb_psz b) j Hp ltac:(lia)) as (Hjr & _).
+      apply poke_keeps; try assumption. apply Hc. lia. }
+    cbn zeta in H1, H2, H3. split; [exact H1|]. split; [rewrite H2; apply poke_size|].
+    intros j Hj. rewrite H3 by (rewrite poke_size; exact Hj).
+    rewrite (poke_view b i v j Hinv Hir Hci Hj).
+    destruct (Z.leb_spec (i + 1) j), (Z.ltb_spec j (i + 1 + zlen r)), (Z.leb_spec i j), (Z.ltb_spec j (i + (zlen r + 1))),
+      (Z.eqb_spec j i); cbn [andb]; try lia; try reflexivity.
+    + replace (j - i) with (j - (i + 1) + 1) by lia. unfold znth.
+      replace (Z.to_nat (j - (i + 1) + 1)) with (S (Z.to_nat (j - (i + 1)))) by lia. reflexivity.
+    + subst j. rewrite Z.sub_diag. reflexivity.
+Qed.
+
+Theorem write_at_spec b off data : fb_inv b -> 0 < zlen data ->
+  match write_at b off data with
+  | IoErr => ~ (0 <= off /\ off + zlen data <= fb_size b)
+  | IoOk b' =>
+    fb_inv b' /\ fb_disk b' = fb_disk b /\
+    forall j, 0 <= j < fb_size b ->
+      view b' j = if (off <=? j) && (j <? off + zlen data) then znth 0 data (j - off) else view b j
+  end.
+Proof.
+  intros Hinv Hlen. pose proof Hinv as (Hp & _). unfold write_at, in_bounds.
+  destruct (Z.leb_spec 0 off) as [Ho|Ho]; cbn [andb]; [|lia].
+  destruct (Z.leb_spec (off + zlen data) (fb_size b)) as [Hb|Hb]; [|lia].
+  destruct (range_pages b off (zlen data) Hp Ho Hlen Hb) as (Hf & Hfl & Hlp).
+  unfold preread.
+  set (n := Z.to_nat (last_page b off (zlen data) - first_page b off + 1)).
+  destruct (load_pages_facts n b (first_page b off) Hinv Hf ltac:(unfold n; lia)) as (H1 & H2 & H3 & H4 & H5).
+  set (b1 := load_pages b (first_page b off) n) in *.
+  assert (Hsz1 : fb_size b1 = fb_size b) by (unfold fb_size; rewrite H2; reflexivity).
+  destruct (fold_poke_spec data b1 off H1 Ho ltac:(lia)) as (G1 & G2 & G3).
+  { intros j Hj. rewrite H4.
+    destruct (page_of_byte (fb_size b) (fb_psz b) j Hp ltac:(lia)) as (Hjr & _).
+    apply load_pages_cached; try assumption; try (unfold pc, n; lia).
+    right. unfold first_page, last_page, n.
+    assert (off / fb_psz b <= j / fb_psz b) by (apply Z.div_le_mono; lia).
+    assert (j / fb_psz b <= (off + zlen data - 1) / fb_psz b) by (apply Z.div_le_mono; lia).
+    unfold first_page, last_page in *. lia. }
+  cbn zeta in G1, G2, G3. split; [exact G1|]. split; [rewrite fold_poke_disk; exact H2|].
+  intros j Hj. rewrite G3 by (rewrite Hsz1; exact Hj). rewrite H5 by exact Hj. reflexivity.
+Qed.
+
+(** * Flush: the disk becomes the view; the view and the invariant are unchanged *)
+Theorem flush_view b j : fb_inv b -> 0 <= j < fb_size b -> view (flush b) j = view b j.
+Proof.
+  intros Hinv Hj. pose proof Hinv as (Hp & Hl1 & Hl2 & Hall).
+  destruct (page_of_byte (fb_size b) (fb_psz b) j Hp Hj) as (Hpr & _).
+  pose proof (flush_disk_is_view b Hinv j Hj) as Hf.
+  unfold view in *. cbn [flush fb_pages fb_psz fb_disk] in *.
+  destruct (znth None (fb_pages b) (j / fb_psz b)) as [pg|] eqn:E; [reflexivity|exact Hf].
+Qed.
